@@ -1,9 +1,175 @@
-/- line protocol stub for component `Subj` (filled in by the component's owner) -/
+import Tulz.Model.Subject
+import Tulz.Drv.Util
+/- line protocol for the Subject model: `subj <op> <args…>`.
+   Several subjects (one `World` each, keyed by `sid`) share one table of handles; an operation runs
+   `Subject.step` on the world of its subject with the shared handle table plugged in.
+   script token: actions separated by `,` (`-` = empty): s<k>m<0|1> us<h> uh<h> mu<h> um<h> iv<h> ms is nt -/
 namespace Tulz.Drv.Subj
+open Tulz Tulz.Subject
 
-abbrev State := Unit
-def init : State := ()
+structure State where
+  subs : List (World String) := []
+  handles : List Handle := []
+  lib : List (Nat × List Action) := []
 
-def step (s : State) (_args : List String) : State × String := (s, "bad-op")
+def init : State := {}
+
+def parseAction (t : String) : Option Action :=
+  if t == "ms" then some .muteSelf
+  else if t == "is" then some .invalSelf
+  else if t == "nt" then some .notify
+  else if t.startsWith "us" then Action.unsubS <$> (t.drop 2).toNat?
+  else if t.startsWith "uh" then Action.unsubH <$> (t.drop 2).toNat?
+  else if t.startsWith "mu" then Action.mute <$> (t.drop 2).toNat?
+  else if t.startsWith "um" then Action.unmute <$> (t.drop 2).toNat?
+  else if t.startsWith "iv" then Action.inval <$> (t.drop 2).toNat?
+  else if t.startsWith "s" then
+    match (t.drop 1).toString.splitOn "m" with
+    | [k, m] => do pure (Action.sub (← k.toNat?) (m == "1"))
+    | _ => none
+  else none
+
+def parseScript (t : String) : Option (List Action) :=
+  if t == "-" then some [] else (t.splitOn ",").mapM parseAction
+
+def libFn (l : List (Nat × List Action)) (k : Nat) : List Action :=
+  match l.find? (fun p => p.1 == k) with
+  | some p => p.2
+  | none => []
+
+def showEv : Ev String → Option String
+  | .enter i a => some (toString i ++ "(" ++ a ++ ")[")
+  | .exit _ => some "]"
+  | .caught => some "E"
+  | _ => none
+
+def freedOf (tr : List (Ev String)) : List Nat :=
+  tr.filterMap (fun e => match e with | .free i => some i | _ => none)
+
+def showTrace (tr : List (Ev String)) : String :=
+  "log=" ++ " ".intercalate (tr.filterMap showEv) ++ " | freed=" ++ joinNat (sortNat (freedOf tr))
+
+def findSub (st : State) (sid : Nat) : Option (World String) := st.subs.find? (fun w => w.sid == sid)
+
+def putSub (st : State) (w : World String) : State :=
+  { st with subs := st.subs.map (fun x => if x.sid == w.sid then { w with handles := [], trace := [] } else x),
+            handles := w.handles }
+
+/-- run one model operation on subject `sid` -/
+def runOp (st : State) (sid : Nat) (op : Op String) (verbose : Bool := false) : State × String :=
+  match findSub st sid with
+  | none => (st, "!PRECOND")
+  | some w0 =>
+    let w : World String := { w0 with handles := st.handles, trace := [] }
+    let r := step (libFn st.lib) w op
+    match r.2 with
+    | .precond => (st, "!PRECOND")
+    | .invalidArg => (st, "!INVALID_ARG")
+    | .ok =>
+      let st' := putSub st r.1
+      if r.1.ub then (st', "!UB")
+      else (st', if verbose then showTrace r.1.trace else "ok | freed=" ++ joinNat (sortNat (freedOf r.1.trace)))
+
+def handleSubj (st : State) (hi : Nat) : Option Nat := st.handles[hi]? >>= (·.subj)
+
+def showOpt : Option Nat → String
+  | some n => toString n
+  | none => "-"
+
+def step (st : State) (args : List String) : State × String :=
+  match args with
+  | ["reset"] => ({}, "ok")
+  | ["sig", _] => (st, "ok")
+  | ["uwrap", _] => (st, "ok")
+  | ["lib", k, sc] =>
+    match k.toNat?, parseScript sc with
+    | some k, some s => ({ st with lib := (k, s) :: st.lib.filter (fun p => p.1 != k) }, "ok")
+    | _, _ => (st, "bad-op")
+  | ["new", s] =>
+    match s.toNat? with
+    | some sid => if (findSub st sid).isSome then (st, "bad-op") else ({ st with subs := st.subs ++ [{ sid := sid }] }, "ok")
+    | none => (st, "bad-op")
+  | ["sub", s, _route, m0, sc] =>
+    match s.toNat?, parseScript sc with
+    | some sid, some script =>
+      match findSub st sid with
+      | none => (st, "!PRECOND")
+      | some w0 =>
+        let r := runOp st sid (.sub script (m0 == "1"))
+        (r.1, s!"h={st.handles.length} id={w0.counter}")
+    | _, _ => (st, "bad-op")
+  | ["unsubS", s, h] =>
+    match s.toNat?, h.toNat? with
+    | some sid, some hi => runOp st sid (.unsubS hi)
+    | _, _ => (st, "bad-op")
+  | ["unsubH", h] =>
+    match h.toNat? with
+    | some hi => match handleSubj st hi with
+      | some sid => runOp st sid (.unsubH hi)
+      | none => (st, "!PRECOND")
+    | none => (st, "bad-op")
+  | [op, h] =>
+    match h.toNat? with
+    | none => (st, "bad-op")
+    | some hi =>
+      let onSubj (f : Nat → State × String) : State × String :=
+        match handleSubj st hi with
+        | some sid => f sid
+        | none => (st, "!PRECOND")
+      if op == "mute" then onSubj (fun sid => runOp st sid (.mute hi))
+      else if op == "unmute" then onSubj (fun sid => runOp st sid (.unmute hi))
+      else if op == "inval" then onSubj (fun sid => runOp st sid (.inval hi))
+      else if op == "hmovenew" then
+        if hi < st.handles.length then ({ st with handles := moveHandleNew st.handles hi }, "ok") else (st, "!PRECOND")
+      else if op == "isvalid" then
+        match st.handles[hi]? with
+        | none => (st, "!PRECOND")
+        | some hd =>
+          match hd.subj with
+          | none => (st, "b=0")
+          | some sid =>
+            match findSub st sid with
+            | none => (st, "!PRECOND")      -- dangling subject pointer
+            | some w => (st, if w.handleValid hd then "b=1" else "b=0")
+      else if op == "ismuted" then
+        match st.handles[hi]? with
+        | none => (st, "!PRECOND")
+        | some hd =>
+          match hd.subj >>= findSub st with
+          | none => (st, "!PRECOND")
+          | some w =>
+            if w.handleValid hd then
+              match w.handleMuted hd with
+              | some b => (st, if b then "b=1" else "b=0")
+              | none => (st, "!UB")
+            else (st, "!PRECOND")
+      else if op == "hinfo" then
+        match st.handles[hi]? with
+        | none => (st, "!PRECOND")
+        | some hd => (st, s!"id={showOpt hd.id} s={showOpt hd.subj} o={if hd.obs.isSome then 1 else 0}")
+      else if op == "hassubs" then
+        match findSub st hi with
+        | none => (st, "!PRECOND")
+        | some w => (st, if w.obs.isEmpty then "b=0" else "b=1")
+      else if op == "drop" then
+        match findSub st hi with
+        | none => (st, "!PRECOND")
+        | some w =>
+          let w' := ({ w with trace := [] } : World String).destroy
+          ({ st with subs := st.subs.filter (fun x => x.sid != hi) }, "ok | freed=" ++ joinNat (sortNat (freedOf w'.trace)))
+      else (st, "bad-op")
+  | ["hmove", d, s] =>
+    match d.toNat?, s.toNat? with
+    | some d, some s =>
+      if d < st.handles.length ∧ s < st.handles.length then ({ st with handles := moveHandle st.handles d s }, "ok")
+      else (st, "!PRECOND")
+    | _, _ => (st, "bad-op")
+  | ["notify", s, fuel, a] =>
+    match s.toNat?, fuel.toNat? with
+    | some sid, some f => runOp st sid (.notify f a) true
+    | _, _ => (st, "bad-op")
+  | ["live"] =>
+    (st, "live=" ++ " ".intercalate (st.subs.flatMap (fun w => (sortNat w.alive).map (fun i => s!"{w.sid}:{i}"))))
+  | _ => (st, "bad-op")
 
 end Tulz.Drv.Subj
